@@ -959,6 +959,28 @@ func (w *c10World) apply(r *Rec, op string) string {
 				r.Count("below-line.accepted")
 			}
 		}
+		if res == "ok" && parent != nil {
+			// own computation in unbounded integers: accepted ⇒ parent.Time < header.Time ≤ block time + 15 s
+			limit := new(big.Int).Add(new(big.Int).SetUint64(now), big.NewInt(15))
+			ht := new(big.Int).SetUint64(h.Time)
+			if ht.Cmp(limit) > 0 {
+				r.Find(Finding{Sig: "C10:accepted-future-timestamp:" + c10TimeClass(h.Time, now), What: fmt.Sprintf("accepted header with time stamp %d, block time %d (+15 s allowed)", h.Time, now),
+					Ops: w.histCopy(), Obs: "accepted", Req: "rejected: future block"})
+			}
+			if ht.Cmp(new(big.Int).SetUint64(parent.Time)) <= 0 {
+				r.Find(Finding{Sig: "C10:accepted-timestamp-not-after-parent", What: fmt.Sprintf("accepted header with time stamp %d ≤ parent's %d", h.Time, parent.Time), Ops: w.histCopy(), Obs: "accepted", Req: "rejected"})
+			}
+		}
+		if parent != nil && stored {
+			cl := c10TimeClass(h.Time, now)
+			if h.Time > parent.Time && cl != "ordinary" {
+				if res == "ok" {
+					r.Count("time.accepted." + cl)
+				} else if broken == "time-future" {
+					r.Count("refused.future." + cl)
+				}
+			}
+		}
 		if res == "ok" && (!stored || broken != "") {
 			r.Find(Finding{Sig: "C10:accepted-invalid:" + broken, What: "accepted header violates rule " + broken + " (or its parent is not stored)", Ops: w.histCopy(), Obs: "accepted", Req: "rejected (accept_sound)"})
 		}
@@ -1693,6 +1715,67 @@ func c10MinU(a, b uint64) uint64 {
 	return b
 }
 
+// classes of header time stamps relative to the block time
+func c10TimeClass(t, now uint64) string {
+	const off = 62135596800 // time.Unix's internal offset: int64(t)+off overflows for t ≥ 2^63-off
+	switch {
+	case t == now+14:
+		return "limit-1"
+	case t == now+15:
+		return "at-limit"
+	case t == now+16:
+		return "limit+1"
+	case t >= 1<<63:
+		if t == 1<<63 {
+			return "2^63"
+		}
+		if t == 1<<64-1 {
+			return "2^64-1"
+		}
+		return "above-2^63"
+	case t >= 1<<63-off-1:
+		return "int64-offset-zone"
+	case t >= 1<<62:
+		return "2^62"
+	case t > now+16 && t >= 1<<32:
+		return "2^32"
+	case t > now+16 && t >= 1<<31:
+		return "2^31"
+	}
+	return "ordinary"
+}
+
+// time-stamp boundaries: children of a stored header whose Time is drawn from every boundary class, on ordinary and extreme block times
+func (g *c10Gen) timeBoundaryHistory(k int) []string {
+	const off = 62135596800
+	t0s := []uint64{1700000000, 1 << 30, 1<<31 - 20, 1<<32 - 20, 1<<62 - 100, 1<<63 - off - 1000}
+	t0 := t0s[k%len(t0s)]
+	gen := g.genesisWith(uint64(60+k), t0, 30000000, 15000000, big.NewInt(9))
+	now := t0 + 20
+	ops := []string{g.reset(4, 1<<62, gen)}
+	times := []uint64{t0, t0 + 1, now + 14, now + 15, now + 16, 1 << 31, 1<<31 + 1, 1 << 32, 1<<32 + 1, 1 << 62, 1<<63 - off - 1, 1<<63 - off, 1<<63 - off + 1,
+		1<<63 - 1000, 1<<63 - 1, 1 << 63, 1<<63 + 1, 1<<63 + off, 1<<64 - 2, 1<<64 - 1}
+	for _, tt := range times {
+		c := g.child(gen, 1)
+		c.Time = tt
+		c.seal()
+		ops = append(ops, c10Op("probe", now, c))
+	}
+	// the limit value is accepted and becomes the head; from there the same classes again, one second later
+	c := g.child(gen, 1)
+	c.Time = now + 15
+	c.seal()
+	ops = append(ops, c10Op("upd", now, c))
+	for _, tt := range []uint64{now + 15, now + 16, now + 17, 1<<63 - 1, 1 << 63, 1<<64 - 1} {
+		d := g.child(c, 1)
+		d.Time = tt
+		d.seal()
+		ops = append(ops, c10Op("probe", now+1, d), c10Op("upd", now+1, d))
+	}
+	g.r.Count("history.time-boundary")
+	return ops
+}
+
 func c10Pow2(k uint, d int64) *big.Int {
 	return new(big.Int).Add(new(big.Int).Lsh(big.NewInt(1), k), big.NewInt(d))
 }
@@ -2081,6 +2164,9 @@ func TestC10(t *testing.T) {
 		r.Count("history.zerofee")
 	}
 	run(g.creationHistory())
+	for k := 0; k < 6; k++ {
+		run(g.timeBoundaryHistory(k))
+	}
 	{ // proposals with redundant consensus-state fields; the installed state expires and is pruned
 		reps := 1
 		if thorough {
